@@ -443,6 +443,13 @@ def run(ctx: core.Run):
         "distinct = (tree, mode). part 2: %d edit histories (every operation alone from a fixed arrangement, then random "
         "histories of %d operations over %d operations) with the relation compared with the specification after every step."
         % (nmax, len(plans), hist_len, len(OPS)))
+    ctx.notes += [
+        "stated in DESIGN, not proved here: clip_current (ClipFresh preserved by every edit step) - needs the edit model of "
+        "C09; this check searches it on the real code instead (part 2)",
+        "stated in DESIGN, not proved here: compositor_honours - observed dynamically on pixel documents (compositor gate)",
+        "defect found by part 2 and fixed in the repository (fix: recompute clipping relationships after structural edits "
+        "and group blend-mode changes): every structural edit left clip_layers/_has_clip_target stale",
+    ]
     ctx.exhaustive = True
     ctx.model_coverage = {
         "modelled": ["rec_helper on one children list (stack, pass-through test, trailing loop)", "recursion over the tree",
@@ -454,11 +461,10 @@ def run(ctx: core.Run):
         ctx.recheck(["PsdVerif.Props.C15"])
 
 
-def _check_compositor_gate(ctx):
-    """`Compositor.apply`: `if not clip_compositing and layer.clipping_layer and layer._has_clip_target: return`
-    and `_apply_clip_layers`. Observed on real pixel documents by wrapping `apply`, `_get_object`, `_get_group`:
-    a clipping layer with a target is composited exactly once, through its base; one without a target exactly
-    once, as an ordinary layer; no layer twice."""
+def gate_observe(fl, modes=("PHOTOSHOP", "CLIP_STUDIO_PAINT")):
+    """Build a pixel document for the arrangement `fl` (per child: 0 layer, 1 clipping layer, 2 pass-through group,
+    3 clipping pass-through group), composite it under each mode with `Compositor.apply/_get_object/_get_group`
+    wrapped, and return {mode: [(is clipping, has target, times composited standalone, times through a base)]}."""
     from PIL import Image
     from psd_tools import PSDImage
     from psd_tools.api.layers import Group, PixelLayer
@@ -483,55 +489,61 @@ def _check_compositor_gate(ctx):
         log.append((id(layer), flags[-1]))
         return oo(self, layer, *a)
 
-    n = 3 if ctx.quick else 4
-    arrangements = []
-    for k in range(1, n + 1):
-        for fl in itertools.product((0, 1, 2, 3), repeat=k):       # 0 layer, 1 clipping layer, 2 pass-through group, 3 clipping pt group
-            arrangements.append(fl)
+    psd = PSDImage.new("RGB", (4, 4))
+    tops = []
+    for k, f in enumerate(fl):
+        if f >= 2:
+            g = Group.new("g%d" % k, parent=psd)
+            g.append(PixelLayer.frompil(Image.new("RGB", (4, 4), (10, 40 * k, 10)), psd, "in%d" % k))
+            g.blend_mode = BlendMode.PASS_THROUGH
+            tops.append(g)
+        else:
+            l = PixelLayer.frompil(Image.new("RGB", (4, 4), (40 * k, 10, 10)), psd, "L%d" % k)
+            psd.append(l)
+            tops.append(l)
+    for l, f in zip(tops, fl):
+        if f % 2:
+            l._record.clipping = 1
+    out = {}
     Compositor.apply, Compositor._get_group, Compositor._get_object = apply, gg, go
     try:
-        for fl in arrangements:
-            psd = PSDImage.new("RGB", (4, 4))
-            tops = []
-            for k, f in enumerate(fl):
-                if f >= 2:
-                    g = Group.new("g%d" % k, parent=psd)
-                    inner = PixelLayer.frompil(Image.new("RGB", (4, 4), (10, 40 * k, 10)), psd, "in%d" % k)
-                    g.append(inner)
-                    g.blend_mode = BlendMode.PASS_THROUGH
-                    tops.append(g)
-                else:
-                    l = PixelLayer.frompil(Image.new("RGB", (4, 4), (40 * k, 10, 10)), psd, "L%d" % k)
-                    psd.append(l)
-                    tops.append(l)
-            for l, f in zip(tops, fl):
-                if f % 2:
-                    l._record.clipping = 1
-            for mode in ("PHOTOSHOP", "CLIP_STUDIO_PAINT"):
-                set_mode(psd, mode)                      # recomputes the relation
-                del log[:]
-                try:
-                    psd.composite(force=True)
-                except Exception as e:  # noqa
-                    ctx.skipped.append("compositor gate: composite() raised %s on %r" % (err_class(e), fl))
-                    return
-                ctx.count(("gate", fl, mode), nontrivial=any(f % 2 for f in fl))
-                for l in tops:
-                    std = sum(1 for i, c in log if i == id(l) and not c)
-                    via = sum(1 for i, c in log if i == id(l) and c)
-                    if l.clipping_layer and l._has_clip_target:
-                        ok, exp = (std, via) == (0, 1), "once, through its base"
-                    else:
-                        ok, exp = (std, via) == (1, 0), "once, as an ordinary layer"
-                    if not ok:
-                        what = "clipped-layer" if (l.clipping_layer and l._has_clip_target) else \
-                            "untargeted-clipping-layer" if l.clipping_layer else "base-layer"
-                        ctx.fail(f"C15/compositor/{what}/standalone-{std}-clipped-{via}",
-                                 "the compositor does not honour the clipping relation",
-                                 {"kind": "gate", "arrangement": list(fl), "mode": mode}, [std, via], exp)
-        ctx.extra["compositor_gate_cases"] = 2 * len(arrangements)
+        for mode in modes:
+            set_mode(psd, mode)                      # recomputes the relation
+            del log[:]
+            psd.composite(force=True)
+            out[mode] = [(bool(l.clipping_layer), bool(l._has_clip_target),
+                          sum(1 for i, c in log if i == id(l) and not c),
+                          sum(1 for i, c in log if i == id(l) and c)) for l in tops]
     finally:
         Compositor.apply, Compositor._get_group, Compositor._get_object = oa, og, oo
+    return out
+
+
+def _check_compositor_gate(ctx):
+    """`Compositor.apply`: `if not clip_compositing and layer.clipping_layer and layer._has_clip_target: return`
+    and `_apply_clip_layers`: a clipping layer with a target is composited exactly once, through its base; one
+    without a target exactly once, as an ordinary layer; every other layer once."""
+    n = 3 if ctx.quick else 4
+    arrangements = [fl for k in range(1, n + 1) for fl in itertools.product((0, 1, 2, 3), repeat=k)]
+    for fl in arrangements:
+        try:
+            res = gate_observe(fl)
+        except Exception as e:  # noqa
+            ctx.skipped.append("compositor gate: composite() raised %s on %r" % (err_class(e), fl))
+            return
+        for mode, rows in res.items():
+            ctx.count(("gate", fl, mode), nontrivial=any(f % 2 for f in fl))
+            for clip, tgt, std, via in rows:
+                if clip and tgt:
+                    ok, exp, what = (std, via) == (0, 1), "once, through its base", "clipped-layer"
+                else:
+                    ok, exp = (std, via) == (1, 0), "once, as an ordinary layer"
+                    what = "untargeted-clipping-layer" if clip else "base-layer"
+                if not ok:
+                    ctx.fail(f"C15/compositor/{what}/standalone-{std}-clipped-{via}",
+                             "the compositor does not honour the clipping relation",
+                             {"kind": "gate", "arrangement": list(fl), "mode": mode}, [std, via], exp)
+    ctx.extra["compositor_gate_cases"] = 2 * len(arrangements)
 
 
 def _flatten(nodes):
@@ -568,5 +580,9 @@ def replay(ctx, data):
         print("tree:", tree_token(nodes), "mode:", inp["mode"])
         print("implementation:", entries_of(img))
         print("difference from the specification:", compare_relation(img))
+    elif inp.get("kind") == "gate":
+        res = gate_observe(tuple(inp["arrangement"]), (inp["mode"],))
+        print("arrangement:", inp["arrangement"], "mode:", inp["mode"])
+        print("(clipping, has target, composited standalone, composited through a base) per layer:", res[inp["mode"]])
     print("expected:", data.get("expected"))
     return 0
